@@ -308,7 +308,8 @@ def type_name_fns(prog):
     for f in prog.hand_fns():
         if f.is_closure or f.from_expansion or f.arg_count != 1 or not f.locals:
             continue
-        if f.locals[0] != "std::string::String" or f.locals[1] != "&eval::value::Value":
+        if f.locals[0].replace("'static ", "") not in ("std::string::String", "&str") \
+                or f.locals[1] != "&eval::value::Value":
             continue
         sw = ops.arg_rooted_switches(f)
         if ((("arg", 1), "*") in sw):
